@@ -235,3 +235,32 @@ Proof. vm_compute. reflexivity. Qed.
 Example Sub_example :
   Sub (Some [(1%N, 0); (2%N, -5)]) (Some [(1%N, MIN); (2%N, MIN)]) = [(1%N, MAX); (2%N, MAX - 4)].
 Proof. vm_compute. reflexivity. Qed.
+
+(* ---- SubEliminateNegative as documented ("all negative values are reset to 0") ----
+   FULL documented statement:  get (SubEliminateNegative l r) k = subElimDoc_at (get l k) (get r k).
+   The code (and the model) reset only the types of the right operand, so the documented statement is
+   refuted by a type that only the left operand has with a negative value; outside that window it
+   holds. Known finding C18-subelim-left-negative. *)
+Theorem SubEliminateNegative_doc_refuted :
+  exists l r k, owf l /\ owf r /\ ores_in_range l /\ ores_in_range r /\
+    get (SubEliminateNegative l r) k <> subElimDoc_at (get (oget l) k) (get (oget r) k) /\
+    snd (SubErrorNegative l r) <> some_key subNegDoc_at (oget l) (oget r).
+Proof.
+  exists (Some [(1%N, -3)]), (Some [(2%N, -1)]), 1%N.
+  assert (Hr : forall z, -10 <= z <= 10 -> in_range z) by (unfold in_range, MIN, MAX; lia).
+  split; [unfold owf, wf; cbn; constructor; [intros []|constructor]|].
+  split; [unfold owf, wf; cbn; constructor; [intros []|constructor]|].
+  split; [unfold ores_in_range, res_in_range; cbn; constructor; [apply Hr; cbn; lia|constructor]|].
+  split; [unfold ores_in_range, res_in_range; cbn; constructor; [apply Hr; cbn; lia|constructor]|].
+  split; vm_compute; intro H; discriminate H.
+Qed.
+Theorem SubEliminateNegative_doc_partial l r k : owf r -> ores_in_range l -> ores_in_range r ->
+  left_only_negative_at (get (oget l) k) (get (oget r) k) = false ->
+  get (SubEliminateNegative l r) k = subElimDoc_at (get (oget l) k) (get (oget r) k).
+Proof.
+  intros Hwf Hl Hr Hw. rewrite SubEliminateNegative_get by assumption.
+  unfold subElim_at, subElimDoc_at, sub_at, left_only_negative_at in *.
+  destruct (get (oget r) k) as [y|]; [reflexivity|].
+  destruct (get (oget l) k) as [v|]; [|reflexivity].
+  destruct (Z.ltb_spec v 0); [discriminate|]. f_equal. lia.
+Qed.
